@@ -24,6 +24,28 @@ fn shallow_type_ok(s: &Value, v: &Value) -> bool {
     }
 }
 
+/// Can the object alternative `b` apply to `v` at all? Not when one of its required members is
+/// missing, or a member it fixes to a single value (a tag) has another value.
+fn tags_compatible(b: &Value, v: &Value) -> bool {
+    let Some(vo) = v.as_object() else { return true };
+    if let Some(req) = b.get("required").and_then(|r| r.as_array()) {
+        if req.iter().filter_map(|r| r.as_str()).any(|r| !vo.contains_key(r)) {
+            return false;
+        }
+    }
+    if let Some(props) = b.get("properties").and_then(|p| p.as_object()) {
+        for (k, ps) in props {
+            let fixed = ps.get("enum").and_then(|e| e.as_array()).filter(|e| e.len() == 1).map(|e| e[0].clone()).or_else(|| ps.get("const").cloned());
+            if let (Some(f), Some(x)) = (fixed, vo.get(k)) {
+                if &f != x {
+                    return false;
+                }
+            }
+        }
+    }
+    true
+}
+
 /// Does `v` contain only members the schema *declares* (DESIGN B.3)?
 /// Conservative: answers false whenever unsure (the probe is then skipped).
 pub fn only_declared(doc: &Value, s: &Value, v: &Value, fuel: usize) -> bool {
@@ -41,7 +63,7 @@ pub fn only_declared(doc: &Value, s: &Value, v: &Value, fuel: usize) -> bool {
     for key in ["oneOf", "anyOf"] {
         if let Some(bs) = o.get(key).and_then(|b| b.as_array()) {
             // every alternative that could apply must declare all members
-            let applicable: Vec<&Value> = bs.iter().filter(|b| b.get("$ref").is_some() || shallow_type_ok(b, v)).collect();
+            let applicable: Vec<&Value> = bs.iter().filter(|b| b.get("$ref").is_some() || (shallow_type_ok(b, v) && tags_compatible(b, v))).collect();
             return !applicable.is_empty() && applicable.iter().all(|b| only_declared(doc, b, v, fuel - 1));
         }
     }
